@@ -3,7 +3,11 @@ package c08
 import (
 	"bytes"
 	"encoding/hex"
+	"errors"
 	"fmt"
+	"runtime"
+	"sync"
+	"sync/atomic"
 	"testing"
 	"time"
 
@@ -15,7 +19,7 @@ import (
 // Case is a hostile peer scenario. Worker death while executing a case is the violation
 // (detected by the driver through the journal); in-process the probes are judged.
 type Case struct {
-	Mode       string   `json:"mode"` // frames | burst | client
+	Mode       string   `json:"mode"` // frames | burst | client | clientstorm
 	Enc        string   `json:"enc"`
 	Pipelining bool     `json:"pipelining,omitempty"`
 	DirectIO   bool     `json:"direct_io,omitempty"`
@@ -29,6 +33,13 @@ type Case struct {
 	Poll    bool     `json:"poll,omitempty"`    // burst mode over unix sockets: poll-mode server
 	Pending int      `json:"pending,omitempty"` // client mode: calls pending when the hostile frames arrive
 	Stream  bool     `json:"stream,omitempty"`  // client mode: a stream is open too
+	// clientstorm mode: callers keep issuing calls on a real Conn while the peer disconnects
+	Callers  int  `json:"callers,omitempty"`
+	CliPipe  bool `json:"cli_pipe,omitempty"`
+	CutAfter int  `json:"cut_after,omitempty"` // the peer disconnects after this many completed calls
+	HardCut  bool `json:"hard_cut,omitempty"`  // read error instead of a clean EOF
+	Volley   int  `json:"volley,omitempty"`    // asynchronous calls issued back to back by a caller
+	Rounds   int  `json:"rounds,omitempty"`    // connections stormed one after the other
 }
 
 const probeSeq = 0x7777
@@ -151,6 +162,7 @@ func corruptValues(b byte, thorough bool) []byte {
 
 func enum(tier string, yield func(Case)) {
 	thorough := tier == "thorough"
+	stormCases(yield)
 	modes := [][2]bool{{false, false}, {true, false}, {false, true}, {true, true}}
 	mi := 0
 	next := func() (bool, bool) { m := modes[mi%4]; mi++; return m[0], m[1] }
@@ -272,6 +284,17 @@ func enum(tier string, yield func(Case)) {
 	}
 }
 
+// stormCases are fixed strong client storms (many callers, client pipelining, many rounds).
+func stormCases(yield func(Case)) {
+	for _, enc := range kit.Encoders {
+		for _, cut := range []int{0, 3, 100} {
+			for hi, hard := range []bool{false, true} {
+				yield(Case{Mode: "clientstorm", Enc: enc, Callers: 8 + 2*hi, CliPipe: true, CutAfter: cut, HardCut: hard, Volley: 8 + 24*hi, Rounds: 40, Origin: "client-storm"})
+			}
+		}
+	}
+}
+
 func gen(t *rapid.T) Case {
 	c := Case{Enc: rapid.SampledFrom(kit.Encoders).Draw(t, "enc"), Pipelining: rapid.Bool().Draw(t, "pipelining"), DirectIO: rapid.Bool().Draw(t, "direct_io")}
 	k := rapid.IntRange(0, 9).Draw(t, "mode")
@@ -330,6 +353,15 @@ func gen(t *rapid.T) Case {
 		c.Pending = rapid.IntRange(0, 4).Draw(t, "pending")
 		c.Stream = rapid.Bool().Draw(t, "stream")
 		c.Origin = "generated-sequence"
+	case k == 7:
+		c.Mode = "clientstorm"
+		c.Callers = rapid.IntRange(1, 12).Draw(t, "callers")
+		c.CliPipe = rapid.IntRange(0, 3).Draw(t, "cli_pipe") > 0
+		c.CutAfter = rapid.SampledFrom([]int{0, 1, 3, 20, 100}).Draw(t, "cut_after")
+		c.HardCut = rapid.Bool().Draw(t, "hard_cut")
+		c.Volley = rapid.SampledFrom([]int{1, 8, 8, 32}).Draw(t, "volley")
+		c.Rounds = rapid.IntRange(1, 60).Draw(t, "rounds")
+		c.Origin = "client-storm"
 	default:
 		c.Mode = "burst"
 		n := rapid.IntRange(1, 64).Draw(t, "n")
@@ -388,8 +420,145 @@ func run(c Case) kit.Outcome {
 		return runBurst(c)
 	case "client":
 		return runClient(c)
+	case "clientstorm":
+		return runClientStorm(c)
 	}
 	return kit.Outcome{Invalid: true}
+}
+
+// runClientStorm: 1-6 goroutines keep issuing calls (Go / Call / stream writes) on one real Conn -
+// optionally with client pipelining - to a real Server over a frame link; after CutAfter completed
+// calls the peer disconnects (clean EOF or a read error) while the callers carry on for a while.
+// The client process must survive (the driver sees a dead worker) and every caller must get an
+// answer or an error.
+func runClientStorm(c Case) kit.Outcome {
+	if c.Callers < 1 || c.Callers > 16 || c.CutAfter < 0 || c.CutAfter > 10000 || c.Volley < 0 || c.Volley > 4096 || c.Rounds < 0 || c.Rounds > 200 {
+		return kit.Outcome{Invalid: true}
+	}
+	// the storm needs real parallelism whatever GOMAXPROCS this worker shard was given
+	if prev := runtime.GOMAXPROCS(0); prev < 8 {
+		runtime.GOMAXPROCS(8)
+		defer runtime.GOMAXPROCS(prev)
+	}
+	out := kit.Outcome{}
+	for r := 0; r < c.Rounds || r == 0; r++ {
+		o := runClientStormRound(c)
+		if o.Violation != "" || o.Undecided != "" {
+			return o
+		}
+		if r == 0 {
+			out = o
+		} else {
+			out.Counters["storm_calls"] += o.Counters["storm_calls"]
+		}
+	}
+	out.Counters["storm_rounds"] = c.Rounds
+	return out
+}
+
+func runClientStormRound(c Case) kit.Outcome {
+	sess, err := kit.NewSession(kit.Modes{Enc: c.Enc, Link: "frame", SrvPipelining: c.Pipelining, SrvDirect: c.DirectIO, CliPipelining: c.CliPipe, CliDirect: c.DirectIO})
+	if err != nil {
+		return kit.Undecided("%v", err)
+	}
+	defer sess.Close()
+	conn, err := sess.Dial()
+	if err != nil {
+		return kit.Undecided("%v", err)
+	}
+	link := sess.Links[0]
+	var completed, afterCut int64
+	var cut int32
+	stop := make(chan struct{})
+	var wg sync.WaitGroup
+	for g := 0; g < c.Callers; g++ {
+		wg.Add(1)
+		go func(g int) {
+			defer wg.Done()
+			var st rpc.Stream
+			if g == 1 {
+				st, _ = conn.NewStream("S.Stream")
+			}
+			for i := 0; ; i++ {
+				select {
+				case <-stop:
+					return
+				default:
+				}
+				id := uint64(g+1)<<32 | uint64(i+1)
+				args := kit.MakePayload(id, kit.DirEcho, uint32(i), 32)
+				var reply []byte
+				switch {
+				case st != nil && i%3 == 2:
+					if st.WriteMessage(&args) == nil {
+						st.ReadMessage(nil, &reply)
+					}
+				case i%2 == 0:
+					// a volley of asynchronous calls issued back to back, then collected
+					volley := c.Volley
+					if volley < 1 {
+						volley = 8
+					}
+					done := make(chan *rpc.Call, volley)
+					replies := make([][]byte, volley)
+					for k := 0; k < volley; k++ {
+						conn.Go(kit.Methods[(i+k)%4], &args, &replies[k], done)
+					}
+					for k := 0; k < volley; k++ {
+						select {
+						case <-done:
+						case <-time.After(bound):
+							atomic.AddInt64(&afterCut, 1<<40) // a caller got stuck
+							return
+						}
+					}
+				default:
+					conn.Call(kit.Methods[i%4], &args, &reply)
+				}
+				atomic.AddInt64(&completed, 1)
+				if atomic.LoadInt32(&cut) == 1 {
+					atomic.AddInt64(&afterCut, 1)
+				}
+			}
+		}(g)
+	}
+	deadline := time.Now().Add(bound)
+	for atomic.LoadInt64(&completed) < int64(c.CutAfter) && time.Now().Before(deadline) {
+		time.Sleep(20 * time.Microsecond)
+	}
+	atomic.StoreInt32(&cut, 1)
+	if c.HardCut {
+		link.C.InjectReadError(errors.New("read: connection reset by peer"), true)
+	} else {
+		link.S.Close()
+	}
+	// the callers carry on against the dead connection for a moment
+	for atomic.LoadInt64(&afterCut) < int64(50*c.Callers) && time.Now().Before(deadline) {
+		time.Sleep(20 * time.Microsecond)
+	}
+	close(stop)
+	done := make(chan struct{})
+	go func() { wg.Wait(); close(done) }()
+	select {
+	case <-done:
+	case <-time.After(2 * bound):
+		o := kit.Fail("callers-stuck", "callers of a Conn whose peer disconnected did not all return within %v", 2*bound)
+		o.Sig, o.Timing = c.Origin, true
+		return o
+	}
+	if atomic.LoadInt64(&afterCut) >= 1<<40 {
+		o := kit.Fail("callers-stuck", "a Go call issued around the disconnect was never signalled within %v", bound)
+		o.Sig, o.Timing = c.Origin, true
+		return o
+	}
+	out := kit.Outcome{Sig: c.Origin, Classes: []string{"client-side", "enc=" + c.Enc, originClass(c.Origin)}, Counters: map[string]int{"storm_calls": int(atomic.LoadInt64(&completed))}}
+	if c.Callers >= 2 {
+		out.Nontrivial = true
+	}
+	if c.CliPipe {
+		out.Classes = append(out.Classes, "client-pipelining")
+	}
+	return out
 }
 
 // probe sends a well-formed request on the connection and waits for its answer.
